@@ -96,6 +96,10 @@ namespace pika::detail {
         {
             old_state = expected;
 
+            // stop may have been requested (and the lock released again) since
+            // the state was read
+            if (stop_requested(old_state)) return false;
+
             for (std::size_t k = 0; is_locked(old_state); ++k)
             {
                 pika::execution::this_thread::detail::yield_k(
@@ -132,6 +136,18 @@ namespace pika::detail {
             std::memory_order_acquire, std::memory_order_relaxed))
         {
             old_state = expected;
+
+            // stop may have been requested (and the lock released again) since
+            // the state was read
+            if (stop_requested(old_state))
+            {
+                cb->execute();
+
+                cb->callback_finished_executing_.store(true, std::memory_order_release);
+
+                return false;
+            }
+            else if (!stop_possible(old_state)) { return false; }
 
             for (std::size_t k = 0; is_locked(old_state); ++k)
             {
